@@ -249,10 +249,34 @@ func ruleWalkErrors(w *World, r *Report) {
 		r.Unknown("ast.Walk", "", "not found")
 		return
 	}
+	// Walk and the functions it delegates to (transitively, static calls that hand on a function-typed argument): the
+	// traversal may be split over several mutually recursive helpers
 	helpers := map[*ssa.Function]bool{walk: true}
-	for _, e := range w.CG().Out[walk] {
-		if e.Kind == EdgeCall && w.InModule(e.To) {
-			helpers[e.To] = true
+	work := []*ssa.Function{walk}
+	for len(work) > 0 {
+		f := work[len(work)-1]
+		work = work[:len(work)-1]
+		for _, b := range f.Blocks {
+			for _, ins := range b.Instrs {
+				c, ok := ins.(ssa.CallInstruction)
+				if !ok {
+					continue
+				}
+				cal := c.Common().StaticCallee()
+				if cal == nil || !w.InModule(cal) || helpers[cal] || cal.Blocks == nil {
+					continue
+				}
+				passesFunc := false
+				for _, a := range c.Common().Args {
+					if _, ok := a.Type().Underlying().(*types.Signature); ok {
+						passesFunc = true
+					}
+				}
+				if passesFunc {
+					helpers[cal] = true
+					work = append(work, cal)
+				}
+			}
 		}
 	}
 	n := 0
